@@ -570,6 +570,8 @@ class Derive:
         self.prev_tasks, self.new_tasks = [], []
         self.done_req = set()
         self.sidmap, self.sidinfo = {}, {}
+        self.banned = set()      # replica addresses on the ban list (a checkout that meets a banned address unbans it
+                                 # - it is the only replica - and forces a health check: pool.rs try_unban / force_healthcheck)
 
     def cid(self, c):
         return self.h.cl[c]["id"]
@@ -707,6 +709,10 @@ class Derive:
             return
         txn_mode = self.w["mode"] != "session"
         a = self.cand(c)
+        force_hc = False
+        if c not in self.held and a is not None and a["id"] in self.banned:
+            force_hc = True
+            self.banned.discard(a["id"])
         if c not in self.held:
             self.k_req_start(entry, ops, drops)
             if cls == "served":
@@ -724,11 +730,13 @@ class Derive:
             elif cls == "poolfail":
                 for a1 in ([a] if a else []):
                     dead = self.idle_srv(a1, dead=True)
-                    if dead and self.w["hc_always"]:
+                    if dead and (self.w["hc_always"] or force_hc):
                         ops += ["TestServer %d" % dead[0], "CandidateFail %d %d true" % (cid, a1["id"])]
                         drops.append(dead[0])
                     else:
                         ops.append("CandidateFail %d %d false" % (cid, a1["id"]))
+                    if a1["replica"]:
+                        self.banned.add(a1["id"])
                 ops.append("CheckoutGiveUp %d" % cid)
                 self.inchk[c] = False
                 self.fails[c] = self.fails.get(c, 0) + 1
@@ -746,6 +754,8 @@ class Derive:
                     # parameters (client.rs sync_parameters()?: no pool.ban, no message) the socket just closes;
                     # if it shows while relaying (receive_server_message: ban + "error receiving data") the address is charged
                     ops += ["CheckoutOk %d %d" % (cid, dead[0]), "ExitErr %d %s" % (cid, "true" if cls == "srvfail" else "false")]
+                    if cls == "srvfail" and a["replica"]:
+                        self.banned.add(a["id"])
                     drops.append(dead[0])
                     self.after_exit(c)
                 else:
@@ -760,6 +770,8 @@ class Derive:
         else:
             if cls in ("srvfail", "closed", "silent"):
                 s = self.held[c]
+                if self.w["addrs"][self.srv[s]["addr"]]["replica"]:
+                    self.banned.add(self.srv[s]["addr"])
                 ops.append("ExitErr %d true" % cid)
                 self.after_exit(c)
                 drops.append(s)
@@ -825,6 +837,8 @@ class Derive:
         if self.phase.get(c) != "handle" or not self.inchk.get(c):
             return
         ops += ["CandidateFail %d %d false" % (cid, a["id"]), "CheckoutGiveUp %d" % cid, "ExitErr %d false" % cid]
+        if a["replica"]:
+            self.banned.add(a["id"])
         self.after_exit(c)
 
     def k_backend(self, entry, ops, drops):
@@ -1274,7 +1288,7 @@ def report(run, hs, results, verdicts, proof_ok, log):
         for (h, res, v, i, text) in panic_hits:
             e = h.plan[max(j for j in range(i + 1) if h.plan[j]["kind"] == "panic")]
             byhex.setdefault(e["hex"], []).append((h.name, text))
-        ex = "; ".join("bytes %s (%s): %d histories, e.g. %s: %s" % (hx, [k for k, p in PANICS.items() if p[0] == hx][0], len(l), l[0][0], l[0][1]) for hx, l in sorted(byhex.items()))
+        ex = "; ".join("bytes %s (%s): %d histories, e.g. %s: %s" % (hx, [k for k, p in PANICS.items() if p[0] == hx][0], len({n for n, _ in l}), l[0][0], l[0][1]) for hx, l in sorted(byhex.items()))
         text = ("a client message that makes the client's task panic leaves its row in CLIENT_STATS for ever (SHOW CLIENTS lists it, SHOW POOLS counts it in cl_idle/cl_active, "
                 "SHOW LISTS in free/used_clients): stats.disconnect() is only reached on Ok/Err returns of handle(). Confirmed inputs after startup: %s [Stats/Props.v c18_panic_leaks_row_refuted, c18_only_panic_leaks]" % ex)
         e = known.get(F_PANIC)
